@@ -160,6 +160,12 @@ If several alignments are present in the input file and the output is a file
 						}
 					}
 				}
+				if subalign == nil {
+					// --reverse with a subsequence covering the whole alignment: nothing remains
+					err = fmt.Errorf("the given subsequence covers the whole alignment: nothing remains after --reverse")
+					io.LogError(err)
+					return
+				}
 				writeAlign(subalign, f)
 				start += subseqstep
 				if subseqstep == 0 || (start+len) > al.Length() {
